@@ -215,4 +215,46 @@ theorem core_eq (junk x0 : Fp2 α) (rest : List (Fp2 α)) (n : Nat) (hn : n = re
   rw [hcore]
   exact zipLoop_eq (fp2_mul O) junk inverse_2 _ _ X n (by omega) hT1 (by simp [scanFrom_length, hn]) (by simp [X, hn])
 
+theorem loopAcc_ge {σ : Type} (lo hi : Nat) (h : hi ≤ lo) (f : σ → Nat → σ) (s : σ) : loopAcc lo hi f s = s := by
+  unfold loopAcc; simp [Nat.sub_eq_zero_of_le h]
+
+/-- **generated `fp2_batched_inv` = hand model**, every operation record, every batch (any length), scratch arrays of the batch length
+    with arbitrary content -/
+theorem fp2_batched_inv_eq (junk : Fp2 α) (xs : List (Fp2 α)) (t1u t2u : List (Fp2 α)) (zu : List Nat) (invu oneu zerou : Fp2 α)
+    (h1 : t1u.length = xs.length) (h2 : t2u.length = xs.length) (hz : zu.length = xs.length) :
+    SqiGen.Fp2Loops.fp2_batched_inv O junk xs xs.length t1u t2u zu invu oneu zerou = SqiModel.Gf.fp2_batched_inv O xs := by
+  have L1 : loopAcc 0 xs.length (fp2_batched_inv_loop_1 O junk xs.length t1u t2u invu (fp2_set_one O) (fp2_set_zero O)) (zu, xs)
+      = (xs.map (fp2_is_zero O), List.zipWith (fun x zi => fp2_select O x (fp2_set_one O) zi) xs (xs.map (fp2_is_zero O))) :=
+    pairLoop_eq (fp2_is_zero O) (fun x zi => fp2_select O x (fp2_set_one O) zi) junk xs zu hz
+  have e1 : Fp2Ref.fp2_set_one O oneu = fp2_set_one O := rfl
+  have e0 : Fp2Ref.fp2_set_zero O zerou = fp2_set_zero O := rfl
+  unfold SqiGen.Fp2Loops.fp2_batched_inv SqiModel.Gf.fp2_batched_inv
+  simp only [e1, e0]
+  rw [L1]
+  dsimp only
+  generalize hZ : xs.map (fp2_is_zero O) = Z
+  generalize hX : List.zipWith (fun x zi => fp2_select O x (fp2_set_one O) zi) xs Z = X
+  have hZl : Z.length = xs.length := by rw [← hZ]; simp
+  have hXl : X.length = xs.length := by rw [← hX]; simp [hZl]
+  generalize xs.length = n at *
+  have L5 : ∀ Y : List (Fp2 α), Y.length = n → ∀ a b c, loopAcc 0 n (fp2_batched_inv_loop_5 O junk n a b Z c (fp2_set_one O) (fp2_set_zero O)) Y =
+      List.zipWith (fun y zi => fp2_select O y (fp2_set_zero O) zi) Y Z := by
+    intro Y hY a b c
+    apply ptLoop_eq (fun y i => fp2_select O y (fp2_set_zero O) (Z.getD i 0)) junk _ Y 0 n (Nat.zero_le _) hY.symm
+    · simp [hY, hZl]
+    · intro j hj; omega
+    · intro i hi _
+      have : Z[i]? = some (Z[i]'(by omega)) := List.getElem?_eq_getElem (by omega)
+      simp [List.getElem?_zipWith, List.getD, this, hi]
+  cases X with
+  | nil =>
+    have : n = 0 := by simpa using hXl.symm
+    subst this
+    simp [loopAcc_zero, loopAcc_ge, fp2_batched_inv_core]
+  | cons x0 rest =>
+    have hn : n = rest.length + 1 := by simpa using hXl.symm
+    have C := core_eq O junk x0 rest n hn t1u t2u h1 h2 Z invu (fp2_set_one O) (fp2_set_zero O)
+    dsimp only at C
+    rw [C, L5 _ (by simp [fp2_batched_inv_core, scanFrom_length, hn])]
+
 end SqiProofs.Fp2BatchGen
